@@ -170,7 +170,8 @@ def count_cases():
     types = ["int ", "char *", "unsigned int ", "char **", "long ", "const char *", "t_list *", "size_t ", "int ", "char "]
     for p in range(1, 11):
         for kind in ("definition", "second-function", "prototype-in-header", "void-pointer-first", "void-pointer-last", "static-void-pp-first",
-                     "prototype-void-pointer-first"):
+                     "prototype-void-pointer-first", "wrapped-1-definition", "wrapped-2-definition", "wrapped-4-definition",
+                     "wrapped-1-prototype", "wrapped-3-prototype"):
             tl = list(types)
             if "void-pointer-first" in kind:
                 tl[0] = "void *"
@@ -179,7 +180,13 @@ def count_cases():
             if kind == "void-pointer-last":
                 tl[p - 1] = "void *"
             params = ", ".join(tl[i] + "p%d" % i for i in range(p))
-            if kind in ("definition", "void-pointer-first", "void-pointer-last"):
+            if kind.startswith("wrapped"):
+                # the parameter list continues on a second line after the j-th comma
+                j = int(kind.split("-")[1])
+                if j >= p:
+                    continue
+                params = ", ".join(tl[i] + "p%d" % i for i in range(j)) + ",\n\t\t" + ", ".join(tl[i] + "p%d" % i for i in range(j, p))
+            if kind in ("definition", "void-pointer-first", "void-pointer-last") or kind.endswith("-definition"):
                 src = HDR + "\n" + "int\tf(%s)\n{\n\treturn (0);\n}\n" % params
                 name = "a.c"
             elif kind == "static-void-pp-first":
@@ -191,8 +198,7 @@ def count_cases():
             else:
                 src = HDR + "\n#ifndef A_H\n# define A_H\n\nint\tf(%s);\n\n#endif\n" % params
                 name = "a.h"
-            if vis(src.split("\n")[-5 if kind != "prototype-in-header" else -4]) > 80:
-                pass
+
             out.append(("parameters", kind, name, src, p, 4, "TOO_MANY_ARGS"))
     # ---- 5 variables: v in 2..11; a second function with its own 5 (the counter is per function)
     vtypes = ["int", "char", "int", "long", "char", "int", "long", "char", "int", "int", "char"]
@@ -305,7 +311,7 @@ def run(run, tier, seed, replay=None):
             k = sum(1 for d in r["diags"] if d[0] == code)
             if k != n - L:
                 found |= run.violation("limit-boundary", dict(data, code=code, count=k, expected_count=n - L))
-    run.count("counters: body lines 22..31 x 9 shapes (incl. chains of nested brace-less structures) x 3 positions; functions 2..11 x 3 forms; parameters 1..10 x 7 forms (void pointer first/last, static, prototype); variables 2..11 x 3 forms",
+    run.count("counters: body lines 22..31 x 9 shapes (incl. chains of nested brace-less structures) x 3 positions; functions 2..11 x 3 forms; parameters 1..10 x 12 forms (void pointer first/last, static, prototype, list wrapped over two lines); variables 2..11 x 3 forms",
               len(cc), len(cc))
     # ------------------------------------------------------------- scope-trace model (25 lines, depth) vs implementation
     sstats = {}
